@@ -209,22 +209,6 @@ Violated(s, env, path, tpl, o) ==
          [] n = "C14_TemplateSubstituted" -> tpl /\ \E i \in DOMAIN o.ups : o.ups[i].raw }
    \cup FieldViolations(s, env, o)
 
-\* antecedent counters (vacuity): which rules had something to decide on this document
-Antecedents(s, env, path, tpl) ==
-   { n \in {"malformed", "kept", "stated", "envdefault", "extra", "cluster", "clusteropts", "badskip", "noallow", "tpl", "other", "skipped"} :
-       CASE n = "malformed" -> ExpMalformed(s, env, path)
-         [] n = "kept" -> \E i \in 1..ExpCount(s) : \E f \in RouteF \cup OptF : ~NearestStates(s, i, f) /\ ExpSrc(s, env, i, f) \notin {"none", "env"}
-         [] n = "stated" -> \E i \in 1..ExpCount(s) : \E f \in RouteF \cup OptF : NearestStates(s, i, f)
-         [] n = "envdefault" -> \E i \in 1..ExpCount(s) : \E f \in EnvF : ExpSrc(s, env, i, f) = "env"
-         [] n = "extra" -> ExpCount(s) = 2
-         [] n = "cluster" -> s.clu.present /\ s.def.present
-         [] n = "clusteropts" -> s.clu.present /\ s.clu.hasOpts /\ s.def.present /\ s.def.hasOpts /\ s.def.st # {}
-         [] n = "badskip" -> \E i \in 1..ExpCount(s) : LET t == ExpSrc(s, env, i, "skip") IN t # "none" /\ BadIn(s, {t})
-         [] n = "noallow" -> Resolves(s) /\ \E i \in 1..ExpCount(s) : \A f \in AllowF : ExpSrc(s, env, i, f) = "none"
-         [] n = "tpl" -> tpl
-         [] n = "other" -> s.oth
-         [] n = "skipped" -> ~Resolves(s) }
-
 -----------------------------------------------------------------------------
 (* The document space (Leg M / Leg G).  Three families keep it near 10^4-10^5: *)
 (*  opts   route fields fixed and well formed; every block states at most two  *)
